@@ -377,6 +377,7 @@ func areas(thorough bool) []*guard.Area {
 	durToks := []string{``, `null`, `0`, `1`, `-1`, `1.5`, `1e300`, `-1e300`, `1e999`, `"1h"`, `""`, `"x"`, `"-9223372036854775808ns"`, `true`, `[]`, `{}`, `"`, `1 `, `99999999999999999999`, `"\u0000"`}
 	durs := []time.Duration{0, 1, -1, time.Second, -time.Second, 59 * time.Second, time.Minute, time.Hour, 24 * time.Hour, 25*time.Hour + 61*time.Second, 1<<63 - 1, -1 << 63, 999 * time.Millisecond, -999 * time.Millisecond}
 	return []*guard.Area{
+		structInputsArea(),
 		pairArea("metadata-decode", mdNames, thorough, decodeMD),
 		pairArea("config-decode", cfgNames, thorough, decodeCfg),
 		{
